@@ -7,3 +7,5 @@ open SSVerif.HypBuf
 #print axioms C01_hyp_string_of_word_list
 #print axioms C01_returned_c_string_is_sentence_of_loaded_grammar
 #print axioms hypBuf_replicate
+#print axioms fill_prefix
+#print axioms C01_hyp_block_start_written_with_last_word_only
